@@ -106,6 +106,25 @@ func baseFrames(thorough bool) []baseFrame {
 			out = append(out, baseFrame{Name: "legacy-writer", Frame: fr, Content: in.build(), Legacy: true})
 		}
 	}
+	// two concatenated legacy frames
+	{
+		var fr, content []byte
+		for f := 0; f < 2; f++ {
+			fp := ref.FramePlan{Legacy: true}
+			for i := 0; i < 2; i++ {
+				lit := payload(byte('p'+i+2*f), 11+i*5)
+				bp, _ := ref.BuildBlock([]ref.Seq{{Lit: lit[:6], Off: 2, MLen: 7}, {Lit: lit[6:]}}, nil)
+				fp.Blocks = append(fp.Blocks, bp)
+				content = append(content, bp.Decoded...)
+			}
+			one, _ := ref.EncodeFrame(fp)
+			fr = append(fr, one...)
+		}
+		if p, err := ref.Parse(fr, ref.Opts{LegacyLoose: true}); err != nil || !bytes.Equal(p.Content, content) {
+			panic(fmt.Sprintf("baseFrames: concatenated legacy frames: %v", err))
+		}
+		out = append(out, baseFrame{Name: "legacy-x2", Frame: fr, Content: content, Legacy: true})
+	}
 	// skippable frame in front
 	{
 		f3, c3 := smallFrame(true, true, 2, false)
@@ -420,6 +439,20 @@ func enumMutations(b *baseFrame, all []baseFrame, thorough bool, emit mutEmit) {
 		}
 		blocks = append(blocks, span{bi.Off, end})
 	}
+	// a block size word replaced by the number of bytes decoded (or consumed) so far: the value the
+	// legacy kernel-trailer rule compares with
+	for i, bi := range p.Blocks {
+		for _, v := range []int{sumDecoded(p, i), bi.Off, sumDecoded(p, i+1)} {
+			if v <= 0 {
+				continue
+			}
+			for _, hi := range []byte{fr[bi.Off+3] & 0x80, 0} {
+				mm := append([]byte{}, fr...)
+				mm[bi.Off], mm[bi.Off+1], mm[bi.Off+2], mm[bi.Off+3] = byte(v), byte(v>>8), byte(v>>16), byte(v>>24)&0x7F|hi
+				emit(fmt.Sprintf("block %d size := %d", i, v), mm)
+			}
+		}
+	}
 	for i, s := range blocks {
 		del := append(append([]byte{}, fr[:s.a]...), fr[s.b:]...)
 		emit(fmt.Sprintf("delete block %d", i), del)
@@ -523,6 +556,20 @@ func c06Check(k *streamCase, full []byte, content []byte, legacy bool) *ev.Findi
 			// a cut exactly on a block boundary is a complete legacy stream
 			var acc []byte
 			ok := cut == 4
+			for _, f := range p.Fields {
+				// right after the magic of a concatenated legacy frame: the stream so far is complete
+				// (an empty legacy frame follows the previous one)
+				if f.Kind == "magic" && cut == f.Off+f.Len {
+					ok = true
+					acc = content[:decodedBefore(p, f.Off)]
+				}
+			}
+			if ok && cut != 4 {
+				if !bytes.Equal(res.out, acc) {
+					return &ev.Finding{Sig: "legacy stream cut on a frame boundary delivers other bytes than the complete blocks; " + path, What: where, Case: k.frozen()}
+				}
+				return nil
+			}
 			for i, bl := range p.Blocks {
 				end := bl.Off + 4 + bl.Stored
 				acc = content[:sumDecoded(p, i+1)]
@@ -549,6 +596,17 @@ func c06Check(k *streamCase, full []byte, content []byte, legacy bool) *ev.Findi
 			What: fmt.Sprintf("base=%s cut=%d %s; %s", k.Base, cut, where, describeDiff(res.out, content)), Case: k.frozen()}
 	}
 	return nil
+}
+
+// decodedBefore is the number of content bytes of the blocks stored before byte offset off.
+func decodedBefore(p *ref.Parsed, off int) int {
+	t := 0
+	for _, b := range p.Blocks {
+		if b.Off < off {
+			t += b.Decoded
+		}
+	}
+	return t
 }
 
 func sumDecoded(p *ref.Parsed, n int) int {
@@ -819,6 +877,43 @@ func c07Run(c *ev.Ctx) {
 		s = append(s, lf[4:]...)
 		for _, rc := range cfgs {
 			run(&streamCase{Fam: "T3chain-legacy", Gen: fmt.Sprint(kn), Mut: fmt.Sprintf("k=%d", kn), Read: rc, stream: s}, false, -1, 0)
+		}
+	}
+	// chains of k empty (stored, zero-length) blocks inside a valid frame
+	for _, kn := range chains {
+		if !c.Next() {
+			continue
+		}
+		d := []byte{0x60, 0x40}
+		fr := append(le32b(ref.MagicFrame), d...)
+		fr = append(fr, byte(ref.XXH32(d)>>8))
+		for i := 0; i < kn; i++ {
+			fr = append(fr, 0, 0, 0, 0x80)
+		}
+		fr = append(fr, 5, 0, 0, 0x80, 'h', 'e', 'l', 'l', 'o', 0, 0, 0, 0)
+		for _, rc := range cfgs {
+			k := &streamCase{Fam: "T3chain-empty-blocks", Gen: fmt.Sprint(kn), Mut: fmt.Sprintf("k=%d", kn), Read: rc, stream: fr}
+			run(k, false, -1, 0)
+			res := decodeStream(fr, rc, 1<<20)
+			if res.panic == "" && res.err != errBlocked && res.err != errSkippedHung && (!res.clean || string(res.out) != "hello") {
+				c.Report(&ev.Finding{Sig: "valid frame with a run of empty blocks is not decoded", What: fmt.Sprintf("k=%d err=%v", kn, res.err), Case: k.frozen()})
+			}
+		}
+	}
+	// T5: valid dependent-block frames with blocks above 64 KiB and more than 128 KiB of history
+	// (the window-trimming arithmetic of the Reader) must not panic either
+	for _, sizes := range [][]int{{65536, 70000, 5}, {100000, 100000, 13}, {65536, 65536, 65536}, {40000, 40000, 40000, 40000, 40000}, {70000, 262144, 100}} {
+		for vi := range depVariants {
+			if !c.Next() {
+				continue
+			}
+			fr, _, ok := buildDepFrame(depPlan{Sizes: sizes, Variant: vi, Code: 5})
+			if !ok {
+				continue
+			}
+			for _, rc := range cfgs {
+				run(&streamCase{Fam: "T5dep", Mut: fmt.Sprintf("sizes=%v variant=%d", sizes, vi), Read: rc, stream: fr}, false, -1, 0)
+			}
 		}
 	}
 	// T4: the C05 mutants with the termination oracle
